@@ -92,6 +92,12 @@ fn check_stream(ctx: &Ctx, acc: &mut Acc, cfg: &Cfg, px: Pixels, twin: bool) {
 
 /// coarse symbol alphabet for a display of logical size (lw, lh)
 pub fn coarse_symbols(r: u32, bk: u32, wide: bool) -> Vec<Sym> {
+    if wide { coarse_symbols_for(r, bk, true, 130, 4) } else { coarse_symbols_for(r, bk, false, 3, 104) }
+}
+
+/// `wide`: runs/blocks along x on a display at least 2R+4 wide and >= 3 high; otherwise columns and
+/// narrow blocks on a display 3 wide and >= Bk+4 high
+pub fn coarse_symbols_for(r: u32, bk: u32, wide: bool, lw: u32, lh: u32) -> Vec<Sym> {
     let mut s = Vec::new();
     let r = r.max(1);
     if wide {
@@ -99,17 +105,17 @@ pub fn coarse_symbols(r: u32, bk: u32, wide: bool) -> Vec<Sym> {
         let mut lens = vec![1, 2, r.saturating_sub(1).max(1), r, r + 1, 2 * r, 2 * r + 1];
         lens.sort_unstable();
         lens.dedup();
-        lens.retain(|l| *l + 1 <= 130);
+        lens.retain(|l| *l + 1 <= lw);
         for y in 0..3 {
             for x0 in [0, 1] {
                 for &len in &lens {
                     s.push(Sym::Run { x: x0, y, len, rev: false });
                 }
                 s.push(Sym::Run { x: x0, y, len: 2, rev: true });
-                s.push(Sym::Run { x: x0, y, len: (r + 1).min(128), rev: true });
+                s.push(Sym::Run { x: x0, y, len: (r + 1).min(lw - 2), rev: true });
             }
             for x in [0, 1, r as i32 - 1, r as i32, 2 * r as i32 + 1] {
-                if x >= 0 && x < 130 {
+                if x >= 0 && (x as u32) < lw {
                     s.push(Sym::Px { x, y });
                 }
             }
@@ -119,31 +125,37 @@ pub fn coarse_symbols(r: u32, bk: u32, wide: bool) -> Vec<Sym> {
         ws.sort_unstable();
         ws.dedup();
         for w in ws {
-            if w == 0 || w > 129 {
+            if w == 0 || w + 1 > lw {
                 continue;
             }
             for h in [2u32, 3, 4] {
-                s.push(Sym::Block { x: 0, y: 0, w, h });
+                if h <= lh {
+                    s.push(Sym::Block { x: 0, y: 0, w, h });
+                }
             }
-            s.push(Sym::Block { x: 1, y: 1, w, h: 3 });
+            if lh >= 4 {
+                s.push(Sym::Block { x: 1, y: 1, w, h: 3 });
+            } else {
+                s.push(Sym::Block { x: 1, y: 1, w, h: 2 });
+            }
         }
     } else {
         // display 3 x 104
         for w in [1u32, 2, 3] {
             let base = bk / w;
-            for h in [base.saturating_sub(1).max(1), base, base + 1, (base + 2).min(104)] {
-                if h >= 1 && h <= 104 {
+            for h in [base.saturating_sub(1).max(1), base, base + 1, (base + 2).min(lh)] {
+                if h >= 1 && h <= lh {
                     s.push(Sym::Block { x: 0, y: 0, w, h });
                 }
             }
         }
-        for len in [1, 2, bk.saturating_sub(1).max(1), bk, (bk + 1).min(104), 104] {
+        for len in [1, 2, bk.saturating_sub(1).max(1), bk, (bk + 1).min(lh), lh] {
             s.push(Sym::Col { x: 1, y: 0, len });
-            if len < 104 {
-                s.push(Sym::Col { x: 2, y: 1, len: len.min(103) });
+            if len < lh {
+                s.push(Sym::Col { x: 2, y: 1, len: len.min(lh - 1) });
             }
         }
-        for y in [0, 1, 50, 99, 100, 103] {
+        for y in [0, 1, 50, 99, 100, lh as i32 - 1] {
             s.push(Sym::Px { x: 1, y });
             s.push(Sym::Px { x: 0, y });
         }
@@ -215,15 +227,21 @@ fn run(ctx: &Ctx) -> Part {
 
     // ---- coarse scale ------------------------------------------------------------------------------
     let maxw = if quick { 3 } else { 4 };
-    for wide in [true, false] {
-        let cfg = if wide {
-            Cfg::tiny(130, 4, false, Transport::RecSerial, (130, 4, 0, 0), 0)
-        } else {
-            Cfg::tiny(3, 104, false, Transport::RecSerial, (3, 104, 0, 0), 0)
-        };
-        let syms = coarse_symbols(r, bk, wide);
+    // (wide alphabet?, configuration): also rotated displays whose logical width exceeds the panel's
+    // native width (3x104 panel at 90 degrees = 104x3 logical; 130x4 panel at 270 degrees = 4x130 logical)
+    let coarse_cfgs = [
+        (true, Cfg::tiny(130, 4, false, Transport::RecSerial, (130, 4, 0, 0), 0)),
+        (false, Cfg::tiny(3, 104, false, Transport::RecSerial, (3, 104, 0, 0), 0)),
+        (true, Cfg::tiny(3, 104, false, Transport::RecSerial, (3, 104, 0, 0), 1)),
+        (false, Cfg::tiny(130, 4, false, Transport::RecSerial, (130, 4, 0, 0), 7)),
+    ];
+    for (wide, cfg) in coarse_cfgs {
+        let (clw, clh) = cfg.geo().lsize();
+        let rotated = cfg.orient != 0;
+        let syms = coarse_symbols_for(r, bk, wide, clw, clh);
         let n = syms.len();
         acc.count(if wide { "coarse_symbols_wide" } else { "coarse_symbols_tall" }, n as u64);
+        let maxw = if rotated { maxw.min(2) + if quick { 0 } else { 1 } } else { maxw };
         let firsts: Vec<usize> = (0..n).collect();
         let a3 = firsts
             .par_iter()
@@ -231,6 +249,9 @@ fn run(ctx: &Ctx) -> Part {
                 check_stream(ctx, &mut acc, &cfg, Pixels::Syms { syms: vec![syms[a]], base: 0x100 }, true);
                 for b in 0..n {
                     check_stream(ctx, &mut acc, &cfg, Pixels::Syms { syms: vec![syms[a], syms[b]], base: 0x100 }, b % 7 == 0);
+                    if maxw < 3 {
+                        continue;
+                    }
                     for c in 0..n {
                         check_stream(ctx, &mut acc, &cfg, Pixels::Syms { syms: vec![syms[a], syms[b], syms[c]], base: 0x100 }, false);
                         if maxw >= 4 {
